@@ -113,6 +113,11 @@ def pool_specs(classes=(0, 1, 2), missing_label=np.nan):
         samplewise=True)
     add("ValueOfInformationEER", lambda s: P.ValueOfInformationEER(missing_label=ml, random_state=s), clf_kw(_pwc),
         rows=False, samplewise=True)
+    # normalised risk over the unlabeled samples only: the evaluation set is empty when the candidate is the last unlabeled
+    # sample (seed R10G01)
+    add("ValueOfInformationEER[normalize,unlabeled-only]",
+        lambda s: P.ValueOfInformationEER(normalize=True, consider_labeled=False, missing_label=ml, random_state=s), clf_kw(_pwc),
+        rows=False, samplewise=True)
     add("QueryByCommittee[KL]", lambda s: P.QueryByCommittee(missing_label=ml, random_state=s),
         lambda d, s: {"ensemble": _ensemble_list(C, s)}, samplewise=True, arbitrary_idx=True)
     add("QueryByCommittee[vote_entropy]", lambda s: P.QueryByCommittee(method="vote_entropy", missing_label=ml, random_state=s),
